@@ -148,6 +148,7 @@ func (e *Exec) unop(fr *frame, instr *ssa.UnOp, x Value) Value {
 			fr.rtPanic("invalid memory address or nil pointer dereference")
 		}
 		e.raceRead(fr, p)
+		e.materialise(p)
 		return copyVal(*p)
 	case token.SUB:
 		switch x := x.(type) {
